@@ -215,10 +215,10 @@ def _simulate(T, phases, pauses):
     split={"h0": "each", "flavour": "each"},
     thorough_split={"h0": "each", "flavour": "each", "h1": "each"},
     witnesses=[{"ti": 1, "k": 2, "h0": 2, "h1": 0, "h2": 0, "p0": 1, "p1": 2, "p2": 0, "flavour": 0},
-               {"ti": 0, "k": 2, "h0": 1, "h1": 3, "h2": 2, "p0": 1, "p1": 1, "p2": 1, "flavour": 1}],
+               {"ti": 1, "k": 2, "h0": 1, "h1": 3, "h2": 2, "p0": 1, "p1": 1, "p2": 1, "flavour": 1}],
     budget={"quick": 200, "thorough": 2400},
     per_path=120,
-    bounds="keep_alive_timeout T in {2,5}; histories of 1..3 phases (quick: 1..2 phases) from {pause, half a request head, request answered at once, request answered after T+1, malformed head, request for an unknown host} with a pause in {0, T-1, T+1} before each phase and 3T+2 at the end; real TCPServer of both workers on virtual time",
+    bounds="keep_alive_timeout T in {2,5}; histories of 1..3 phases (quick: 1..2 phases, T=5) from {pause, half a request head, request answered at once, request answered after T+1, malformed head, request for an unknown host} with a pause in {0, T-1, T+1} before each phase and 3T+2 at the end; real TCPServer of both workers on virtual time",
     encodes=["hypercorn/asyncio/tcp_server.py::TCPServer.run", "hypercorn/asyncio/tcp_server.py::TCPServer._idle_timeout", "hypercorn/asyncio/tcp_server.py::TCPServer.protocol_send",
              "hypercorn/trio/tcp_server.py::TCPServer.run", "hypercorn/trio/tcp_server.py::TCPServer._idle_timeout", "hypercorn/asyncio/worker_context.py::AsyncioSingleTask.restart",
              "hypercorn/trio/worker_context.py::TrioSingleTask.restart", "hypercorn/protocol/h11.py::H11Protocol._maybe_recycle"],
@@ -230,11 +230,12 @@ def h1_idle_history(ti: int, k: int, h0: int, h1: int, h2: int, p0: int, p1: int
     post: _
     """
     enter()
-    T = TS[conc(ti, 0, 1)]
+    ti = conc(ti, 0, 1)
     k = conc(k, 1, 3)
+    if QUICK and (k == 3 or ti == 0):
+        return done(True, skipped="quick tier: histories of at most two phases, T=5")
+    T = TS[ti]
     flavour = "asyncio" if conc(flavour, 0, 1) == 0 else "trio"
-    if QUICK and k == 3:
-        return done(True, skipped="quick tier: histories of at most two phases")
     hs = (h0, h1, h2)
     ps = (p0, p1, p2)
     phases = [conc(hs[i], 0, 5) for i in range(k)]
